@@ -16,6 +16,8 @@ Values are opaque tokens without spaces: `s<hex code points>` for a Python `str`
   lost <n>                            connectionLost(reason n)
   onerr <did> (<N|Z|P> <rs> <serial>)*   the caller attaches to Deferred <did> an errback that issues these
                                       calls (expectReply=True) when it runs                       -> ok
+  onok <did> (<N|Z|P> <rs> <serial>)*    the same for a callback (runs on a value)               -> ok
+  ondisc raise | ondisc calls (...)*   notifyOnDisconnect of a callback that raises / issues calls -> ok
   cvt <rs> N | cvt <rs> M <sig> <body>   _cbCvtReply called directly
 
   <rs> = K (the _NO_CHECK_RETURN default) | N (None) | S<hex>
@@ -73,6 +75,7 @@ def showOutcome : Outcome DV Nat → String
 def showFault : Fault → String
   | .keyError => "keyError"
   | .alreadyCalled => "alreadyCalled"
+  | .callbackRaised => "callbackRaised"
 
 def insertSorted (x : Nat × Nat) : List (Nat × Nat) → List (Nat × Nat)
   | [] => [x]
@@ -129,7 +132,16 @@ def parseNewCalls? : List String → Option (List NewCall)
 def stepLine (s : DStR) (line : String) : DStR × String :=
   let ws := words line
   match ws with
-  | ["reset", r] => (⟨St.init DV Nat (r == "1"), []⟩, "ok")
+  | ["reset", r] => (⟨St.init DV Nat (r == "1"), [], []⟩, "ok")
+  | "onok" :: did :: rest =>
+    match did.toNat?, parseNewCalls? rest with
+    | some did, some calls => (stepR asStrTok s (.onOk did calls), "ok")
+    | _, _ => (s, "bad-input")
+  | ["ondisc", "raise"] => (stepR asStrTok s (.onDisconnect .raises), "ok")
+  | "ondisc" :: "calls" :: rest =>
+    match parseNewCalls? rest with
+    | some calls => (stepR asStrTok s (.onDisconnect (.issues calls)), "ok")
+    | none => (s, "bad-input")
   | "onerr" :: did :: rest =>
     match did.toNat?, parseNewCalls? rest with
     | some did, some calls => (stepR asStrTok s (.onErr did calls), "ok")
@@ -149,4 +161,4 @@ def stepLine (s : DStR) (line : String) : DStR × String :=
       (s', showState s.base s'.base)
     | none => (s, "bad-input")
 
-def main : IO Unit := Driver.run stepLine (⟨St.init DV Nat true, []⟩ : DStR)
+def main : IO Unit := Driver.run stepLine (⟨St.init DV Nat true, [], []⟩ : DStR)
